@@ -69,10 +69,12 @@ PROPS = {
     'C03': {'functions': CFG_ALL,
             'rx': ['rx:cfgparser._keyvalue_rx', 'rx:cfgparser._section_start_rx'], 'standin': True},
     'C04': {'functions': ['substitution._split', 'substitution.substitute', 'substitution.isname'],
+            'helpers': {'substitution._split': ['substitution.substitute']},
             'rx': ['rx:substitution._name_re'], 'standin': True},
     'C05': {'functions': [CFG + '__init__', CFG + 'handle_define', CFG + 'replace', CFG + 'handle_include',
                           CFG + 'handle_directive', 'substitution.substitute', 'substitution._split', 'loader.ConfigLoader.loadResource',
                           'loader.ConfigLoader._parse_resource', 'loader.ConfigLoader.includeConfiguration'],
+            'helpers': {'substitution._split': ['substitution.substitute']},
             'rx': ['rx:substitution._name_re'], 'standin': True},
     'C06': {'functions': [CFG + '__init__', CFG + 'parse', CFG + 'handle_include', CFG + 'end_section',
                           'loader.ConfigLoader.includeConfiguration', 'loader.ConfigLoader._parse_resource',
@@ -87,7 +89,8 @@ PROPS = {
     'C09': {
         'functions': ['datatypes.RegularExpressionConversion.__call__', 'datatypes.BasicKeyConversion.__call__',
                       'datatypes.asBoolean', 'datatypes.integer', 'datatypes.RangeCheckedConversion.__call__',
-                      'datatypes.SuffixMultiplier.__call__', 'datatypes.IpaddrOrHostname.__call__'],
+                      'datatypes.SuffixMultiplier.__call__', 'datatypes.IpaddrOrHostname.__call__',
+                      'datatypes.InetAddress.__call__', 'datatypes.SocketAddress.__init__'],
         'rx': ['rx:datatypes.basic-key', 'rx:datatypes.identifier', 'rx:datatypes.dotted-name',
                'rx:datatypes.dotted-suffix', 'rx:datatypes.ipaddr-or-hostname'],
         'bind': ['bind:datatypes'],
@@ -162,6 +165,20 @@ def _with_env(env, args):
 
 
 SUBST_ALPHA = ['$', '{', '}', '(', ')', 'a', 'B', '_', '1', '-']
+
+def _lift_split(a):
+    """_split(s) is called by substitute on every suffix of its argument that starts a token: the helper's
+    input is itself a caller input; mappings / environments that define or omit the names in it."""
+    import re as _re
+    s = a['s']
+    names = _re.findall(r'[a-zA-Z_][a-zA-Z0-9_]*', s)
+    full = {n.lower(): 'V' for n in names}
+    envs = {n: 'E' for n in names}
+    return [{'s': s, 'mapping': {}, 'env': {}}, {'s': s, 'mapping': full, 'env': envs},
+            {'s': 'p' + s, 'mapping': full, 'env': envs}, {'s': s + '$$q', 'mapping': full, 'env': envs}]
+
+
+LIFT = {('substitution._split', 'substitution.substitute'): _lift_split}
 
 NATIVE = {
     'url.urlnormalize': {
